@@ -450,6 +450,10 @@ Definition static_path (root : bytes) (explicit : list (bytes * bytes)) (urlpath
   | None => join2 root rp
   end.
 
+(* static.NewModifier(rootPath) / the JSON config's "rootPath" (missing = ""):
+   the modifier keeps path.Clean(rootPath) -- "" becomes ".", never "" *)
+Definition configured_root (raw : bytes) : bytes := clean raw.
+
 (* what os.Open / Stat / mime.TypeByExtension say about a path: external *)
 Inductive fsres :=
 | FFile (data : bytes) (ctype : bytes)
@@ -590,6 +594,17 @@ Definition static_clause (lower : bytes -> bytes) (fs : bytes -> fsres)
         end
     | _ => CFullOr206Or416
     end.
+
+(* the same, from the root as configured *)
+Definition static_resp_cfg (lower : bytes -> bytes) (fs : bytes -> fsres)
+           (rawroot : bytes) (explicit : list (bytes * bytes)) (bnd : bytes)
+           (st0 : Z) (urlpath hdr : bytes) : result :=
+  static_resp lower fs (configured_root rawroot) explicit bnd st0 urlpath hdr.
+
+Definition static_clause_cfg (lower : bytes -> bytes) (fs : bytes -> fsres)
+           (rawroot : bytes) (explicit : list (bytes * bytes))
+           (st0 : Z) (urlpath hdr : bytes) (o : result) : option clause :=
+  static_clause lower fs (configured_root rawroot) explicit st0 urlpath hdr o.
 
 (* ------------------------------------------------------------------ *)
 (* closed form of the response: the RFC reading of the header and total
